@@ -2531,7 +2531,7 @@ func (r *caseRun) randomCase(disciplined bool) {
 			known = append(known, [2]int{m, t})
 		}
 	}
-	if !r.multi() && !r.expired && r.idx%5 == 2 {
+	if !r.multi() && r.cur == leader && !r.expired && r.idx%5 == 2 {
 		// every fifth history: the leader's log also feeds a remote follower (second consumer group); its
 		// acknowledgements and the WAL GC ticks are derived from the history so far (no draw from rng: the
 		// other cases' histories stay as they were)
